@@ -319,6 +319,60 @@ fn run(id: &str, tier: Tier) -> i32 {
     // 3. crashed workers
     let mut inconclusive = false;
     for (w, status, infl) in &out.crashed {
+        if status == "stalled" {
+            // one case did not finish for minutes. Re-run it alone, in a fresh process, with a generous
+            // limit (typical cases take milliseconds): only if it does not finish there either is it a hang
+            let Some(case) = infl else {
+                inconclusive = true;
+                continue;
+            };
+            if out.violation.is_some() {
+                // one confirmed hang is enough (each confirmation costs minutes)
+                continue;
+            }
+            let rp = outdir.join(format!("stalled-{w}.json"));
+            std::fs::create_dir_all(&outdir).ok();
+            std::fs::write(&rp, serde_json::to_vec(&json!({"property": id, "case": case, "expect": "pass"})).unwrap_or_default()).ok();
+            let t1 = std::time::Instant::now();
+            let alone = std::process::Command::new(&exe).arg("replay").arg(&rp).arg("--quiet").spawn().ok().map(|mut child| loop {
+                match child.try_wait() {
+                    Ok(Some(s)) => break Some(s),
+                    Ok(None) if t1.elapsed().as_secs() > 120 => {
+                        let _ = child.kill();
+                        let _ = child.wait();
+                        break None;
+                    }
+                    Ok(None) => std::thread::sleep(std::time::Duration::from_millis(100)),
+                    Err(_) => break None,
+                }
+            });
+            match alone {
+                Some(None) => {
+                    // still running after 120 s alone
+                    if id == "C05" {
+                        if out.violation.is_none() {
+                            out.violation = Some(engine::Violation {
+                                property: id.to_string(),
+                                case: case.clone(),
+                                sig: "C05:hang".into(),
+                                detail: "this case did not finish within the per-case watchdog in the run and not within 120 s when re-run alone in a fresh process (typical cases take milliseconds)".into(),
+                                origin: "watchdog".into(),
+                            });
+                        }
+                    } else {
+                        eprintln!("worker {w}: a case hangs also when re-run alone (the formatter's hang is C05's business): {}", syn::clip(&case.to_string(), 300));
+                        out.stats.skip("deferred_to_C05:hang");
+                    }
+                }
+                Some(Some(_)) => {
+                    // finished alone: the stall was load, not a property of the case; the worker's remaining work is lost
+                    eprintln!("worker {w} stalled under load (its in-flight case finishes in {:.1} s alone); its remaining cases were not run", t1.elapsed().as_secs_f64());
+                    out.stats.skip("worker-lost:stalled-under-load");
+                }
+                None => inconclusive = true,
+            }
+            continue;
+        }
         if id == "C05" && status != "timeout" {
             if let Some(case) = infl {
                 let v = engine::Violation {
